@@ -38,9 +38,18 @@ import (
 
 // vpC20Trusted is the harness' own definition of "same host or subdomain" (case-insensitive, port ignored
 // because both arguments are bare hostnames).
+//
+// A subdomain is a DNS name: an IP literal (':' - possibly with a zone, '%') is the same host only when it is equal;
+// the text of a zone identifier does not make an address part of anybody's domain.
 func vpC20Trusted(x, initial string) bool {
 	x, initial = strings.ToLower(x), strings.ToLower(initial)
-	return x == initial || (initial != "" && strings.HasSuffix(x, "."+initial))
+	if x == initial {
+		return true
+	}
+	if strings.ContainsAny(x, ":%") {
+		return false
+	}
+	return initial != "" && strings.HasSuffix(x, "."+initial)
 }
 
 func vpC20Hostname(addr string) string {
@@ -256,6 +265,8 @@ var vpC20OtherHosts = []string{
 	"evil.com?@example.com", "evil.com#@example.com", "evil.com\\@example.com", "evil.com%2f@example.com",
 	"example.com%2eevil.com", "evil.com%23.example.com", "evil.com%2523.example.com", "[::ffff:127.0.0.1]",
 	"1.example.com.evil.com:80", "example.com..evil.com", ".example.com", "evil.com/.example.com",
+	// IPv6 literals whose zone identifier ends in the trusted name
+	"[2001:db8::bad%25x.example.com]", "[2001:db8::bad%2525x.example.com]", "[fe80::1%2525.example.com]:8080", "[::1%2525sub.example.com]", "[fe80::2%25example.com]",
 }
 
 // initial hosts with the bare hostname the harness intends (checked against the first dial)
